@@ -192,7 +192,8 @@ def materialise(spec, slots):
         if t == "obj":
             return Opaque()
         if t == "text":  # run-length text: [[unit, repetitions], ...] (+ optional prefix/suffix)
-            return spec.get("pre", "") + "".join(u * n for u, n in v) + spec.get("post", "")
+            txt = spec.get("pre", "") + "".join(u * n for u, n in v) + spec.get("post", "")
+            return StrSub(txt) if spec.get("sub") else txt
         raise ValueError("bad spec %r" % (spec,))
     return spec
 
@@ -509,7 +510,7 @@ def apply_op(op, slots):
 URLISH_OPS = frozenset(
     ["new", "build", "with_scheme", "with_user", "with_password", "with_host", "with_port", "with_path", "with_query",
      "extend_query", "update_query", "without_query_params", "with_fragment", "with_name", "with_suffix", "truediv",
-     "mod", "joinpath", "join", "origin", "relative", "parent", "pickle", "copy", "deepcopy", "reduce"]
+     "mod", "joinpath", "join", "origin", "relative", "parent", "pickle", "copy", "deepcopy", "reduce", "legacy_setstate"]
 )
 STATE_OPS = frozenset(["cache_clear", "cache_configure", "cache_info", "lru_resize", "lru_clear", "gc"])
 
@@ -618,6 +619,11 @@ def _dispatch(name, op, slots, args, kwargs):
         obj = r[0](*r[1])
         if len(r) > 2 and r[2] is not None:
             obj.__setstate__(r[2])
+        return obj
+    if name == "legacy_setstate":
+        # what unpickling a pickle written by an old yarl (default-style state) does
+        obj = URL.__new__(URL)
+        obj.__setstate__((None, {"_val": SplitResult(*shallow(u)), "_cache": {}}))
         return obj
     if name == "query_mutate":
         # try to mutate through the proxy / the returned containers; must fail or have no effect on u
@@ -937,7 +943,9 @@ def gen_restart(rng, live):
         return {"op": "copy", "on": on, "args": []}
     if r < 0.9:
         return {"op": "deepcopy", "on": on, "args": []}
-    return {"op": "reduce", "on": on, "args": [rng.choice([2, 3, 4, 5])]}
+    if r < 0.96:
+        return {"op": "reduce", "on": on, "args": [rng.choice([2, 3, 4, 5])]}
+    return {"op": "legacy_setstate", "on": on, "args": []}
 
 
 def gen_read(rng, live):
